@@ -279,6 +279,15 @@ func (h *FBDNSDB) ServeDNSWithRCODE(ctx context.Context, w dns.ResponseWriter, r
 		h.stats.IncrementCounter("DNS_response.refused")
 		m := new(dns.Msg)
 		m.SetRcode(r, dns.RcodeRefused)
+		if ecs != nil && r.IsEdns0() != nil {
+			// echo the client subnet option as every other reply does
+			// (the OPT copied from the request by SizeAndDo would drop it)
+			o = new(dns.OPT)
+			o.Hdr.Name = "."
+			o.Hdr.Rrtype = dns.TypeOPT
+			o.Option = append(o.Option, ecs)
+			m.Extra = append(m.Extra, o)
+		}
 		// does not matter if this write fails
 		return h.writeAndLog(state, m, ecs)
 	}
